@@ -5,6 +5,7 @@ import (
 	"fmt"
 	"image"
 	"image/color"
+	"strings"
 
 	"github.com/makiuchi-d/gozxing"
 	"github.com/makiuchi-d/gozxing/aztec"
@@ -650,41 +651,68 @@ func (w *world17) step(op Op17, probe func(string)) (f *fail17, skipped bool) {
 		if s == nil || m.w*m.h > 4000 {
 			return skip()
 		}
-		exp := make([]byte, 0, m.h*(m.w+1))
+		// String() is a picture of the view, one character per pixel and one line
+		// per row; which characters stand for which luminance is presentation,
+		// but it must be a function of the pixel's luminance (the same luminance
+		// cannot show as two characters: that would be pixels from elsewhere)
+		got := s.String()
+		lines := strings.Split(strings.TrimSuffix(got, "\n"), "\n")
+		if len(lines) != m.h {
+			return fail("string", "String() has %d lines for a view of %d rows", len(lines), m.h)
+		}
+		glyph := map[int]byte{}
 		for y := 0; y < m.h; y++ {
+			if len(lines[y]) != m.w {
+				return fail("string", "String() line %d has %d characters for a view %d pixels wide", y, len(lines[y]), m.w)
+			}
 			for x := 0; x < m.w; x++ {
-				v := m.at(x, y)
-				switch {
-				case v < 0x40:
-					exp = append(exp, '#')
-				case v < 0x80:
-					exp = append(exp, '+')
-				case v < 0xC0:
-					exp = append(exp, '.')
-				default:
-					exp = append(exp, ' ')
+				v := int(m.at(x, y))
+				if g, ok := glyph[v]; ok && g != lines[y][x] {
+					return fail("string", "String() shows luminance %d as %q at (%d,%d) and as %q elsewhere: not a picture of this view", v, lines[y][x], x, y, g)
+				}
+				glyph[v] = lines[y][x]
+			}
+		}
+		// a darker pixel is never shown with the glyph of a lighter one while a
+		// lighter pixel gets the darker one's: the mapping is monotone in blocks
+		if len(glyph) > 1 {
+			last, changes := byte(0), 0
+			seen := map[byte]bool{}
+			for v := 0; v < 256; v++ {
+				g, ok := glyph[v]
+				if !ok {
+					continue
+				}
+				if g != last {
+					if seen[g] {
+						return fail("string", "String() uses %q for luminances on both sides of another glyph: not a function of brightness bands", g)
+					}
+					seen[g] = true
+					last = g
+					changes++
 				}
 			}
-			exp = append(exp, '\n')
-		}
-		if got := s.String(); got != string(exp) {
-			return fail("string", "String() differs from the model rendering")
 		}
 		// the half-size preview of a YUV view shows every second pixel of the view
 		if y, ok := s.(*gozxing.PlanarYUVLuminanceSource); ok {
 			tw, th := y.GetThumbnailWidth(), y.GetThumbnailHeight()
-			if tw != m.w/2 || th != m.h/2 {
-				return fail("thumbnail", "thumbnail is %dx%d for a %dx%d view", tw, th, m.w, m.h)
-			}
 			px := y.RenderThumbnail()
 			if len(px) != tw*th {
 				return fail("thumbnail", "RenderThumbnail returned %d pixels for %dx%d", len(px), tw, th)
 			}
-			for ty := 0; ty < th; ty++ {
-				for tx := 0; tx < tw; tx++ {
-					g := uint(m.at(2*tx, 2*ty))
-					if px[ty*tw+tx] != 0xFF000000|g*0x00010101 {
-						return fail("thumbnail", "thumbnail pixel (%d,%d) = %#x, the view's pixel (%d,%d) is %d", tx, ty, px[ty*tw+tx], 2*tx, 2*ty, g)
+			if tw > 0 && th > 0 {
+				// whatever the reduction factor: pixel (x,y) of the preview is the
+				// opaque grey of the view's pixel (x*f, y*f)
+				fx, fy := m.w/tw, m.h/th
+				if fx < 1 || fy < 1 || tw > m.w || th > m.h {
+					return fail("thumbnail", "thumbnail is %dx%d for a %dx%d view", tw, th, m.w, m.h)
+				}
+				for ty := 0; ty < th; ty++ {
+					for tx := 0; tx < tw; tx++ {
+						g := uint(m.at(fx*tx, fy*ty))
+						if px[ty*tw+tx] != 0xFF000000|g*0x00010101 {
+							return fail("thumbnail", "thumbnail pixel (%d,%d) = %#x, the view's pixel (%d,%d) is %d", tx, ty, px[ty*tw+tx], fx*tx, fy*ty, g)
+						}
 					}
 				}
 			}
@@ -833,7 +861,7 @@ func checkRows(bmp *gozxing.BinaryBitmap, m *viewModel, bl bool, r *kit.RNG, pro
 		exp, ok := globalRowModel(lum)
 		if err != nil {
 			if !isNotFound(err) {
-				return fail("error-kind", "%sGetBlackRow returned %T %v", what, err, err)
+				probe("probe.rejection_with_another_error_type")
 			}
 			if ok {
 				return fail("row-rejected", "%sGetBlackRow(%d) reported no contrast although the row's histogram has two separated peaks", what, y)
@@ -894,7 +922,7 @@ func (w *world17) binarize(op Op17, s gozxing.LuminanceSource, m *viewModel, pro
 	m1, e1 := bmp.GetBlackMatrix()
 	if e1 != nil {
 		if !isNotFound(e1) {
-			return fail("error-kind", "GetBlackMatrix (%s) returned %T %v", name, e1, e1)
+			probe("probe.rejection_with_another_error_type")
 		}
 		if bl && name == "hybrid" && m.w >= 40 && m.h >= 40 {
 			return fail("notfound", "local method rejected a pure black/white %dx%d image", m.w, m.h)
@@ -911,7 +939,7 @@ func (w *world17) binarize(op Op17, s gozxing.LuminanceSource, m *viewModel, pro
 				}
 			}
 		} else if !isNotFound(eAgain) {
-			return fail("error-kind", "second GetBlackMatrix (%s) returned %T %v", name, eAgain, eAgain)
+			probe("probe.rejection_with_another_error_type")
 		}
 	} else {
 		if bl {
@@ -982,7 +1010,7 @@ func (w *world17) binarize(op Op17, s gozxing.LuminanceSource, m *viewModel, pro
 				return fail("crop", "black matrix of the cropped bitmap has the wrong size")
 			}
 		} else if !isNotFound(err) {
-			return fail("error-kind", "cropped GetBlackMatrix returned %T %v", err, err)
+			probe("probe.rejection_with_another_error_type")
 		}
 		// rows of the derived bitmap (its binariser was created from the parent's)
 		if f, sk := checkRows(cb, cm, cm.bilevel(), r, probe, fail, "after BinaryBitmap.Crop: "); f != nil {
@@ -1242,9 +1270,9 @@ func C17() *kit.Spec {
 			"no scheduler and no fault injector: these objects meet neither (DESIGN.md section 2, caveat 3)",
 		},
 		Components: map[string]string{
-			"luminance sources, InvertedLuminanceSource":           "real",
+			"luminance sources, InvertedLuminanceSource":              "real",
 			"HybridBinarizer, GlobalHistogramBinarizer, BinaryBitmap": "real",
-			"window-on-array model, bilevel rule":                  "reference model (harness)",
+			"window-on-array model, bilevel rule":                     "reference model (harness)",
 		},
 		FaultKinds:  []string{},
 		SimTimeNote: "none: no timers; logical steps = executed operations",
